@@ -59,6 +59,65 @@ CLAIMS = {
        "injectivity-of-dump theorem is not yet proved; to/from OpenSSL conversion is covered by correspondence only.",
   technique="Lean 4 theorem proving + regenerated tables + differential correspondence",
   design="§6 C12"),
+ "C01": dict(
+  text="Machine-checked proof on the model of jose_jws_ver/jose_jws_ver_io and the sign.ver hooks (Jose/Jws.lean), for "
+       "every instance of the abstract primitives: exact characterisation of the verdict for a single key (some "
+       "signature object passes) and for key lists (all: non-empty and every key; any: some key); a passing pair means "
+       "the algorithm named by the merged header (or the key) is registered, the key declares no other and may verify, "
+       "and the family's primitive accepted the decoded signature over exactly protected '.' payload (HMAC equality "
+       "with key length in [hash, KEYMAX]; ECDSA r||s of exact width under a key EC_KEY_check_key accepted; RSA with "
+       "modulus >= 256 bytes); vacuous cases (empty key set, empty/absent signatures, absent signature) fail; 'none' "
+       "is not registered; streaming verdict = one-shot verdict for every chunking (verdict of any multiplexer tree is "
+       "a function of the concatenated data). Differential run: jose-signed and Lean-signed tokens of all 13 "
+       "algorithms, ~8k mutations (every signature character, payload/protected positions, alg games, key edits, key "
+       "set shapes x any/all, streaming), against an independent Lean implementation of HMAC/ECDSA/RSASSA; every "
+       "acceptance by jose is re-derived from raw primitive checks by a specification oracle.",
+  note="Trusted: Lean kernel, standard axioms; primitives are parameters (their cryptographic strength is not claimed); "
+       "model tied to lib/jws.c + lib/openssl/{hmac,ecdsa,rsassa,jwk}.c by differential testing against the "
+       "independent Lean primitives (Jose/Crypto); nested key lists are not modelled; timing of comparisons is out of scope.",
+  technique="Lean 4 theorem proving (tree semantics, case analysis) + differential correspondence with an independent implementation",
+  design="§6 C01"),
+ "C03": dict(
+  text="Machine-checked proof on the model of jose_jws_sig (find_alg, encode_protected, sign.sig hooks, add_entity): the "
+       "bytes handed to the signing primitive are exactly ASCII(protected') '.' payload with protected' the member "
+       "stored; an encoded protected header is stored verbatim; after find_alg the merged header names exactly the "
+       "algorithm applied (header's, else suggested from the key and recorded in the protected header) and the key "
+       "declares no other; round trip: what is appended verifies under the same key for every family/template/"
+       "algorithm source, given stated laws for ECDSA/RSA correctness for that key and the JSON layer re-reading its own "
+       "dump (HMAC needs no law; base64 round trip through JSON strings is proved). Differential/interop run both ways "
+       "with the independent Lean implementation: 680 sign ops x 2 sides, every token verified by both sides under key "
+       "and public half, HMAC and RS* values bit-identical, general form (2nd/3rd signature), multi-key calls, streamed "
+       "payloads, RFC 7515/7520 vectors.",
+  note="Trusted: Lean kernel, standard axioms; primitive laws are hypotheses (validated against OpenSSL by interop); "
+       "the independent implementation shares no code with jose or OpenSSL; randomized signatures (ES*, PS*) are "
+       "compared by cross-verification, not bit for bit.",
+  technique="Lean 4 theorem proving + bidirectional differential interop with an independent Lean implementation",
+  design="§6 C03"),
+ "C15": dict(
+  text="Machine-checked proof on the model of jose_jws_hdr / jose_jwe_hdr: for every parameter name and every presence "
+       "pattern the merged value is protected, else shared unprotected, else per-recipient (JWS: protected, else "
+       "header), identical for object and encoded protected headers; unusable headers make the merge fail. For JWS "
+       "producing calls the algorithm applied is the one the result's merged header names and it is recorded in the "
+       "protected header (C03.findAlgSig_spec). Differential run over all presence patterns x forms x malformed "
+       "headers with a direct oracle; producing calls are re-verified by the independent implementation using only the "
+       "recorded header (C03/C04 runs).",
+  note="Trusted: Lean kernel, standard axioms; the JWE producing half (enc/alg recording) is covered by the C04 "
+       "correspondence and stated for the JWE model; inference tables are compared, not proved.",
+  technique="Lean 4 theorem proving + differential correspondence",
+  design="§6 C15"),
+ "C16": dict(
+  text="Machine-checked proof on the model of add_entity/encode_protected for unbounded histories: from any legal start "
+       "(empty, flattened, general, empty list) any sequence of additions succeeds and leaves exactly one legal form "
+       "holding the starting entries followed by the added ones in order, each showing the listed members it was added "
+       "with; flattened->general moves the existing entry unchanged; never both forms; encoded protected headers are "
+       "never altered, encoding is idempotent. Differential run: all histories of length <=4 over 11 entry kinds from 15 "
+       "start shapes for both member sets (53k), with a direct layout oracle; real sign histories with verification of "
+       "every earlier signature after each step are part of the C03 run.",
+  note="Trusted: Lean kernel, standard axioms; model tied to lib/openssl/misc.c by differential testing; 'earlier "
+       "entries stay valid' follows from the layout theorem plus C03's round trip (signing input depends only on the "
+       "entry's own protected text and the shared payload).",
+  technique="Lean 4 theorem proving (invariant over histories) + exhaustive short-history differential",
+  design="§6 C16"),
 }
 
 NOT_YET = "check not built yet (framework under construction); will be claimed when its Lean theorems and correspondence exist"
